@@ -201,10 +201,23 @@ func C01(c *core.Ctx) {
 		}
 		restorePod()
 		c.Decide(okFace, "R1.2", "outdata-face-is-nexthop", c.Pos(ci), "Data is sent on GetFace(nexthop)", "processOutgoingData sends on a face other than GetFace(nexthop): "+describeFaceValue(recv))
+		// (the packet may be put together in a helper shared with the Interest pipeline:
+		// its parameters stand for what processOutgoingData passes)
+		same := func(v ssa.Value, prm *ssa.Parameter) bool {
+			if v == nil {
+				return false
+			}
+			if core.Same(v, prm) {
+				return true
+			}
+			restore := core.WithRoot(pod)
+			defer restore()
+			return core.Strip(core.Resolve(v)) == ssa.Value(prm)
+		}
 		tok := outPktField(args[0], "PitToken")
-		c.Decide(core.Same(tok, pod.Params[3]), "R1.3", "outdata-token-passthrough", c.Pos(ci), "OutPkt.PitToken is the pitToken parameter", "processOutgoingData does not attach the pitToken it was given")
+		c.Decide(same(tok, pod.Params[3]), "R1.3", "outdata-token-passthrough", c.Pos(ci), "OutPkt.PitToken is the pitToken parameter", "processOutgoingData does not attach the pitToken it was given")
 		pk := outPktField(args[0], "Pkt")
-		c.Decide(core.Same(pk, pod.Params[1]), "R1.2", "outdata-packet-passthrough", c.Pos(ci), "OutPkt.Pkt is the packet parameter", "processOutgoingData sends a packet other than the one it was given")
+		c.Decide(same(pk, pod.Params[1]), "R1.2", "outdata-packet-passthrough", c.Pos(ci), "OutPkt.Pkt is the packet parameter", "processOutgoingData sends a packet other than the one it was given")
 	}
 
 	// ---- SendData: passthrough, token from the in-record of the same face, delete
